@@ -935,9 +935,12 @@ fn build_sdes_body(sdes: &SourceDescription) -> Vec<u8> {
     for chunk in &sdes.chunks {
         body.extend_from_slice(&chunk.ssrc.to_be_bytes());
         for item in &chunk.items {
+            // SDES item length is one octet: truncate like `build_goodbye_body`
+            let bytes = item.text.as_bytes();
+            let len = bytes.len().min(255);
             body.push(item.ty);
-            body.push(item.text.len() as u8);
-            body.extend_from_slice(item.text.as_bytes());
+            body.push(len as u8);
+            body.extend_from_slice(&bytes[..len]);
         }
         body.push(0); // End of list
         while body.len() % 4 != 0 {
